@@ -13,7 +13,9 @@ package main
 import (
 	"fmt"
 	"math/rand"
+	"os"
 	"strconv"
+	"time"
 	"strings"
 
 	"github.com/simimpact/srsim/pkg/engine"
@@ -246,12 +248,15 @@ var simKinds = []struct {
 	spNeed, spAdd         int
 	maxEnergy             float64
 	spd, hp               float64
+	skillCheck            int // 0: no custom Skill.CanUse; 1: one that always allows; 2: one that never allows
 }{
-	{model.TargetType_ENEMIES, model.TargetType_ENEMIES, model.TargetType_ENEMIES, 1, 1, 100, 100, 1000},
-	{model.TargetType_ENEMIES, model.TargetType_ALLIES, model.TargetType_ALLIES, 1, 1, 120, 120, 800},
-	{model.TargetType_ENEMIES, model.TargetType_SELF, model.TargetType_SELF, 2, 1, 90, 90, 1200},
-	{model.TargetType_ENEMIES, model.TargetType_ENEMIES, model.TargetType_ENEMIES, 0, 2, 110, 134, 600},
-	{model.TargetType_ENEMIES, model.TargetType_ENEMIES, model.TargetType_ENEMIES, 1, 1, 100, 105, 900}, // two ultimates (info.MultiUlt)
+	{model.TargetType_ENEMIES, model.TargetType_ENEMIES, model.TargetType_ENEMIES, 1, 1, 100, 100, 1000, 0},
+	{model.TargetType_ENEMIES, model.TargetType_ALLIES, model.TargetType_ALLIES, 1, 1, 120, 120, 800, 0},
+	{model.TargetType_ENEMIES, model.TargetType_SELF, model.TargetType_SELF, 2, 1, 90, 90, 1200, 0},
+	{model.TargetType_ENEMIES, model.TargetType_ENEMIES, model.TargetType_ENEMIES, 0, 2, 110, 134, 600, 0},
+	{model.TargetType_ENEMIES, model.TargetType_ENEMIES, model.TargetType_ENEMIES, 1, 1, 100, 105, 900, 0}, // two ultimates (info.MultiUlt)
+	{model.TargetType_ENEMIES, model.TargetType_ENEMIES, model.TargetType_ENEMIES, 1, 1, 100, 100, 1000, 1}, // a custom skill check on top of the skill-point cost
+	{model.TargetType_ENEMIES, model.TargetType_ENEMIES, model.TargetType_ENEMIES, 1, 1, 100, 100, 1000, 2}, // a custom skill check that never allows the skill
 }
 
 // kind 4 has two ultimates and no single one
@@ -274,6 +279,16 @@ func (c *scriptedMultiChar) UltSkill(t key.TargetID, _ info.ActionState) {
 	curSim.runProg(curSim.ult[c.id], c.id, t)
 }
 
+func skillCheckOf(k int) func(engine.Engine, info.CharInstance) bool {
+	switch k {
+	case 1:
+		return func(engine.Engine, info.CharInstance) bool { return true }
+	case 2:
+		return func(engine.Engine, info.CharInstance) bool { return false }
+	}
+	return nil
+}
+
 func registerScripted() {
 	for i, k := range simKinds {
 		character.Register(key.Character(fmt.Sprintf("verifchar%d", i)), character.Config{
@@ -294,7 +309,7 @@ func registerScripted() {
 			MaxEnergy:  k.maxEnergy,
 			SkillInfo: character.SkillInfo{
 				Attack: character.Attack{SPAdd: k.spAdd, TargetType: k.attackT},
-				Skill:  character.Skill{SPNeed: k.spNeed, TargetType: k.skillT},
+				Skill:  character.Skill{SPNeed: k.spNeed, TargetType: k.skillT, CanUse: skillCheckOf(k.skillCheck)},
 				Ult:    character.Ult{TargetType: k.ultT},
 			},
 		})
@@ -607,7 +622,11 @@ func (simComp) Exec(c *wire.Case, w *wire.Writer) {
 		var res *model.IterationResult
 		var err error
 		crashed := ""
-		func() {
+		// the run gets its own goroutine and a deadline: a run that neither returns nor reaches the event cap
+		// (a loop that emits nothing) is reported as a hang and the process ends after this case
+		done := make(chan struct{})
+		go func() {
+			defer close(done)
 			defer func() {
 				if r := recover(); r != nil {
 					crashed = firstLine(fmt.Sprint(r))
@@ -615,6 +634,17 @@ func (simComp) Exec(c *wire.Case, w *wire.Writer) {
 			}()
 			res, err = simulation.Run(&simulation.RunOpts{Config: cfg, Eval: simEval{s}, Seed: int64(op.Int("seed")), Loggers: []logging.Logger{s.log}})
 		}()
+		hung := false
+		select {
+		case <-done:
+		case <-time.After(simDeadline()):
+			hung = true
+		}
+		if hung {
+			w.Ob(wire.R("hang").I("events", s.log.n))
+			w.End()
+			os.Exit(0) // the spinning goroutine cannot be stopped; cases after this one are not executed
+		}
 		for _, r := range s.log.recs {
 			w.Ob(r)
 		}
@@ -631,6 +661,13 @@ func (simComp) Exec(c *wire.Case, w *wire.Writer) {
 		}
 		curSim = nil
 	}
+}
+
+func simDeadline() time.Duration {
+	if v, err := strconv.Atoi(os.Getenv("VERIF_SIM_DEADLINE_MS")); err == nil && v > 0 {
+		return time.Duration(v) * time.Millisecond
+	}
+	return 20 * time.Second
 }
 
 func (simComp) Gen(r *rand.Rand, tier string, n int) []*wire.Case {
